@@ -1028,7 +1028,8 @@ class StructOf(DataType):
             result = dict(previous or {})
             for key, val in value.items():
                 if val is not None:  # goodie: allow None instead of missing key
-                    result[key] = self.members[key].validate(val)
+                    # hand over the previous value: a member may be a (partial) struct itself
+                    result[key] = self.members[key].validate(val, result.get(key))
             return ImmutableDict(result)
         except Exception as e:
             errcls = RangeError if isinstance(e, RangeError) else WrongTypeError
